@@ -63,6 +63,9 @@ CHECKS = {
  "C11": dict(cat="model_checking", tech="TLA+ Framing spec (windowed reader with slice aliasing, fill, readLine step order) checked by TLC against the one-shot FrameAll under every segmentation; emitted (stream, segmentation) pairs and byte-level cut sweeps replayed on the real ParseMessage over bufio; Trace_Framing judges the extracted message sequence",
     text="Framing.tla: 9 streams over the line-length classes around the reader window (W-1, W, W+1, 2W+1), bodies that look like SIP text, keep-alives, under every single and double (thorough: triple) cut - SegInd holds with the first fragment copied and is violated by the pinned readLine order. Each pair is expanded to 1 KiB per symbol (model window = bufio's 4096 bytes) and run on the real code with CRLF and LF; plus every single and double BYTE cut of short sequences, random multi-cuts (down to 1-byte segments) of long ones (lines to 20 KiB, bodies to 60 KiB, 1-8 messages), and real TCP.",
     note=TB + "well-formed concatenations only; expectation built from the generator's structured messages.", ref="5/C11"),
+ "C10": dict(cat="model_checking", tech="TLA+ UdpBuf spec (recycled buffers modelled physically, recv and parse threads): TLC exhaustive over all Alloc/Recv/Parse/Free interleavings of all datagram-class sequences; the sequences are emitted and sent to a real UDPServerTransport; Trace_Udp judges delivery, content, provenance and buffer ownership from the pool/udp hooks",
+    text="UdpBuf.tla: all sequences of 3 (quick) / 4 (thorough) datagrams over 6 classes x every interleaving of the two goroutines: Isolation, Discard, DeliveredAll, OneHolder hold with the decoder limited to the first n bytes and Isolation is violated by the pinned whole-buffer decoder. On the real code every sequence plus random ones (3-62 datagrams of 20 B - 60 KiB, any cut offset, over/under-declared lengths, 1-3 sockets) go through a real socket; deliveries are serialised after the burst; each body byte encodes its datagram so that the provenance set is observed.",
+    note=TB + "kernel drops before udp.recv are not charged; buffer identities from the pool.* / udp.* hooks.", ref="5/C10"),
 }
 NA_REASON = "check not built yet (work in progress; see DESIGN.md section 9)"
 
